@@ -3,6 +3,8 @@
 pub mod alphabet;
 pub mod checks;
 pub mod evidence;
+pub mod histories;
+pub mod jitter_env;
 pub mod inventory;
 pub mod linear;
 pub mod ops;
